@@ -63,7 +63,7 @@ static lltd_iface_state *il_stB;
 static ethernet_address_t il_src[2], il_dst[2]; static uint8_t il_pause[2], il_kind[2];
 
 static void il_hook(void) { (void)sendProbeMsg(il_src[1], il_dst[1], il_stB, &g_cfgB, il_pause[1], il_kind[1], true); }
-#ifdef V_PREEMPT
+#if defined(V_PREEMPT) && !defined(REL_CLASS)
 static void v_preempt_target(void) { il_hook(); }
 #endif
 
